@@ -11,7 +11,7 @@ from __future__ import annotations
 import ast
 from typing import Any, Optional
 
-from .absint import Env, Opaque, evaluate, interp
+from .absint import Env, Lin, Opaque, evaluate, interp
 from .astutil import call_name
 from .frontend import ClassInfo, FunctionInfo, Program, is_stub
 
@@ -99,6 +99,63 @@ def make_inline_hook(prog: Program, cls: Optional[ClassInfo], module, max_depth:
                 if k.startswith("self."):
                     env.vars[k] = v
             return live[0].value
+        if 1 < len(live) <= 8 and all(o.kind == "return" and isinstance(o.value, Lin) for o in live):
+            # several returning paths (typically an if-expression on a draw): the caller continues with a fresh symbol
+            # bounded below / above by every path value that is provably a lower / upper bound of all path values,
+            # each comparison decided under the facts of its own path; only the facts established before the first fork
+            # (they are shared with the caller) and these bounds survive - a sound join, never a witness
+            from .absint import entails_ge0
+            f = env.facts
+            if env.choices is not None:
+                # the rule enumerates the returning paths itself (exact, witnesses possible): follow the scripted one
+                site = (target.name, getattr(call, "lineno", 0), getattr(call, "col_offset", 0))
+                env.choices["log"][site] = len(live)
+                k = env.choices["script"].get(site)
+                if k is not None and k < len(live):
+                    o = live[k]
+                    pf = o.env.facts
+                    f.ge0[:] = pf.ge0
+                    f.exact.clear(); f.exact.update(pf.exact)
+                    f.ints.clear(); f.ints.update(pf.ints)
+                    f.notes[:] = pf.notes
+                    f._n = pf._n
+                    f.defs[:] = pf.defs
+                    f.__dict__["_fdiv_cache"] = dict(pf.__dict__.get("_fdiv_cache", {}))
+                    for k_, v_ in o.env.vars.items():
+                        if k_.startswith("self."):
+                            env.vars[k_] = v_
+                    return o.value
+            f._n = max([f._n] + [o.env.facts._n for o in live])
+            known: set[str] = set(f.ints) | set(f.exact)
+            for g in f.ge0:
+                known |= g.syms()
+            for v in env.vars.values():
+                if isinstance(v, Lin):
+                    known |= v.syms()
+
+            def integral(o) -> bool:
+                return all(s in o.env.facts.ints for s in o.value.syms()) and o.value.const.denominator == 1 \
+                    and all(c.denominator == 1 for c in o.value.coef.values())
+            r = f.fresh("join", exact=False, integer=all(integral(o) for o in live))
+            cands = []
+            for o in live:
+                if o.value not in cands and o.value.syms() <= known:
+                    cands.append(o.value)
+            for cand in cands:
+                if all(entails_ge0(o.env.facts, o.value - cand) for o in live):
+                    f.add_ge(r, cand)
+                if all(entails_ge0(o.env.facts, cand - o.value) for o in live):
+                    f.add_le(r, cand)
+            keys = set()
+            for o in live:
+                keys |= {k for k in o.env.vars if k.startswith("self.")}
+            for k in keys:
+                vals = [o.env.vars.get(k) for o in live]
+                if all(isinstance(v, Lin) and v == vals[0] for v in vals):
+                    env.vars[k] = vals[0]
+                elif any(v is not env.vars.get(k) for v in vals):
+                    env.vars[k] = Opaque("attribute stored on some returning paths of a helper")
+            return r
         return Opaque(f"helper {target.name} has {len(live)} returning paths")
 
     def assume_hook(env: Env, call: ast.Call, polarity: bool) -> bool:
